@@ -81,6 +81,7 @@ def validate_encoder(p):
                 break
         if len(samples) < 3:
             samples.append(dict(function=it["name"], args={k: (v if not isinstance(v, list) else "array") for k, v in it["args"].items()}))
-    for s in p.get("skipped", []):
-        failures.append(dict(function=s["name"], what="interpreter could not run the function concretely: " + s["why"]))
-    return dict(cases=cases, failures=failures[:10], samples=samples, bound="random concrete inputs incl. cell edges/half-integers; relative tolerance 1e-8")
+    # functions the interpreter could not run concretely (a construct outside its subset): reported, not a disagreement
+    skipped = [dict(function=s["name"], why=s["why"][:160]) for s in p.get("skipped", [])]
+    return dict(cases=cases, failures=failures[:10], samples=samples, skipped=skipped[:10], n_skipped=len(skipped),
+                bound="random concrete inputs incl. cell edges/half-integers; relative tolerance 1e-8")
